@@ -21,7 +21,7 @@ RULE = (
     "<= 8 significant decimals, decimal exponent -12..12: float(result) == v (rel 1e-9). (B) Fraction + - * / % abs "
     "neg **n (|n|<=4) and the six comparisons, also with int/float operands on either side, against "
     "fractions.Fraction on the decimal literals - exactly. (C) FractionScalar(fv,u): GetValue(v), db.Convert of a "
-    "FractionValue, the six comparisons and IsValid (category with limits) against Scalar(float(fv),u), over unit pairs "
+    "FractionValue, the six comparisons and IsValid / CheckValidity (three categories with limits - length [0,100) m, length [0.05,1] m, temperature [250,300] K - written in default and other units incl. degC/degF, numbers as generated and near the limits; verdict, violated limit and operator) against Scalar(float(fv),u), over unit pairs "
     "of every quantity type (one rotation per draw in quick, all 37 040 pairs in thorough) incl. affine units, "
     "1e-12*S plus the library's documented 1e-8 absolute rounding of the converted numerator; the same on a database "
     "registered at run time (affine units given by string formulas and by callables). Non-trivial = non-zero "
@@ -466,14 +466,42 @@ class ScalarChecker:
         from barril.units import FractionScalar, Scalar
 
         ctx = self.ctx
-        fv = FractionValue(case["number"], Fraction(case["num"], case["den"]))
-        for u in ("m", "cm", "ft"):
-            ctx.ev()
-            a = FractionScalar(fv, u, "bv c18 limited").IsValid()
-            b = Scalar(float(fv), u, "bv c18 limited").IsValid()
-            if a != b:
-                ctx.fail("fraction_scalar_validity_differs_from_scalar", dict(case, u=u), "FractionScalar(%r,%r).IsValid()=%r, Scalar(%r).IsValid()=%r" % (fv, u, a, float(fv), b))
+        from barril.units.exceptions import QuantityValidationError
+
+        def verdict(o):
+            try:
+                o.CheckValidity()
+                return (o.IsValid(), None)
+            except QuantityValidationError as e:
+                return (o.IsValid(), (e.operator, e.limit_value))
+
+        for cat, units, _k in LIMITED:
+            for u in units:
+                # the generated number as it is, and brought into the neighbourhood of the limits in this unit
+                mid = self.db.Convert(cat, self.db.GetDefaultUnit(cat), u, self.db.GetDefaultValue(cat))
+                for number in (case["number"], round(mid + (case["number"] % 7.0) - 3.0, 3)):
+                    fv = FractionValue(number, Fraction(case["num"], case["den"]))
+                    ctx.ev()
+                    a = verdict(FractionScalar(fv, u, cat))
+                    b = verdict(Scalar(float(fv), u, cat))
+                    ctx.cls("validity_%s" % ("valid" if b[0] else "invalid"))
+                    if a != b:
+                        ctx.fail("fraction_scalar_validity_differs_from_scalar", dict(case, u=u, category=cat, number=number), "FractionScalar(%r,%r,%r): (IsValid, violated limit) = %r, Scalar(%r): %r" % (fv, u, cat, a, float(fv), b))
         ctx.cls("validity_checked")
+
+
+LIMITED = [
+    # (category, units to write the value in, scale that brings a generated number near the limits)
+    ("bv c18 limited", ("m", "cm", "ft"), 1.0),
+    ("bv c18 band", ("m", "cm", "in", "ft", "km"), 1.0),
+    ("bv c18 warm", ("K", "degC", "degF"), 1.0),
+]
+
+
+def _register_limited(db):
+    db.AddCategory("bv c18 limited", "length", min_value=0.0, max_value=100.0, is_max_exclusive=True, default_unit="m", default_value=1.0)
+    db.AddCategory("bv c18 band", "length", min_value=0.05, max_value=1.0, default_unit="m", default_value=0.5)
+    db.AddCategory("bv c18 warm", "temperature", min_value=250.0, max_value=300.0, default_unit="K", default_value=273.15)
 
 
 def run_shard(spec, ctx):
@@ -542,7 +570,7 @@ def run_shard(spec, ctx):
         ctx.exhaustive["FractionScalar vs Scalar on a run-time registered database (affine units by string formula and by callable)"] = "all pairs"
         return
     db = env.new_db("posc")
-    db.AddCategory("bv c18 limited", "length", min_value=0.0, max_value=100.0, is_max_exclusive=True, default_unit="m", default_value=1.0)
+    _register_limited(db)
     with env.pushed(db):
         sc = ScalarChecker(ctx, db)
         items, weights = [], []
@@ -573,6 +601,8 @@ def run_shard(spec, ctx):
                         sc.check({"qt": qt, "u": u, "v": v, "c": cats[(k + j) % len(cats)], "number": sign * number, "num": num, "den": den})
                 sc.check_validity({"number": f1[0] % 150, "num": f1[1], "den": f1[2]})
                 sc.check_validity({"number": 99, "num": f2[1], "den": f2[2]})
+                for k in range(12):
+                    sc.check_validity({"number": round((f1[0] * (k + 1) * 0.37) % 11.0, 2), "num": (f1[1] if k % 2 else f2[1]), "den": (f1[2] if k % 2 else f2[2])})
 
             return test
 
@@ -597,7 +627,7 @@ def replay(case, ctx):
             sc.check(case)
         return ["%s: %s" % (k, v["msg"]) for k, v in ctx.violations.items()]
     db = env.new_db("posc")
-    db.AddCategory("bv c18 limited", "length", min_value=0.0, max_value=100.0, is_max_exclusive=True, default_unit="m", default_value=1.0)
+    _register_limited(db)
     with env.pushed(db):
         sc = ScalarChecker(ctx, db)
         if "qt" in case:
